@@ -50,7 +50,7 @@ from term_image.image import iterm2 as ITERM2
 from term_image.image import kitty as KITTY
 from term_image.padding import ExactPadding
 from term_image.render import RenderIterator
-from term_image.renderable import Frame, Renderable, RenderData
+from term_image.renderable import Frame, FrameCount, Renderable, RenderData
 from term_image.renderable import _renderable as RMOD
 
 R_TCGETATTR, R_TCSETATTR = termios.tcgetattr, termios.tcsetattr
@@ -114,13 +114,10 @@ class Inject:
             return
         self.segs.append([s, 1 if cut else 0])
         data = s.encode()
-        while data:
-            _, w, _ = R_SELECT([], [SLAVE], [], 0)
-            if w:
-                n = R_WRITE(SLAVE, data)
-                data = data[n:]
+        while data:  # small pieces, the master emptied after each: a blocking write can never fill the pty
+            n = R_WRITE(SLAVE, data[:512])
+            data = data[n:]
             self.drain()
-        self.drain()
 
     def throw(self, exc_cls):
         self.injected = True
@@ -337,10 +334,12 @@ class Text(Renderable):
     """Coloured text frames (CSI 38;2 m ... CSI m per line); following the HINT of
     Renderable._handle_interrupted_draw_, the handler writes CSI 0 m (here: ST CSI m)."""
 
-    def __init__(self, n, size, handler):
-        super().__init__(n, 1)
+    def __init__(self, n, size, handler, indefinite=None):
+        super().__init__(FrameCount.INDEFINITE if indefinite is not None else n, 1)
         self._sz = Size(*size)
         self._handler = handler
+        self._left = indefinite
+        self._it = None
         self.render_data_seen = []
 
     def _get_render_size_(self):
@@ -349,11 +348,14 @@ class Text(Renderable):
     def _get_render_data_(self, *, iteration):
         rd = super()._get_render_data_(iteration=iteration)
         self.render_data_seen.append(rd)
+        self._it = iter(range(self._left)) if self._left is not None else None
         return rd
 
     def _render_(self, render_data, render_args):
         def real():
             data = render_data[Renderable]
+            if self._it is not None and data.iteration:
+                next(self._it)  # StopIteration ends an INDEFINITE animation
             w, h = data.size
             n = data.frame_offset
             line = f"\x1b[38;2;{10 + n};{20 + n};{30 + n}m" + chr(0x30 + n % 10) * w + "\x1b[m"
@@ -430,7 +432,7 @@ def run_case(case):
         res["lines"] = obj.rendered_height
         res["cols"] = obj.rendered_width
     else:
-        obj = Text(scn.get("frames", 1), scn.get("size_wh", [3, 2]), scn.get("handler", True))
+        obj = Text(scn.get("frames", 1), scn.get("size_wh", [3, 2]), scn.get("handler", True), scn.get("indefinite"))
         if scn.get("seek"):
             obj.seek(scn["seek"])
         seek0 = obj.tell()
@@ -463,6 +465,8 @@ def run_case(case):
                 kw = dict(scn.get("style_args", {}))
                 if scn.get("frames", 1) > 1:
                     kw.update(animate=scn.get("animate", True), repeat=scn.get("loops", 1), cached=scn.get("cached", False))
+                if "alpha" in scn:
+                    kw["alpha"] = scn["alpha"]
                 obj.draw(scn.get("h_align"), scn.get("pad_width", 1), scn.get("v_align"), scn.get("pad_height", 1), **kw)
             else:
                 pad = scn.get("pad", [0, 0, 0, 0])
